@@ -86,7 +86,10 @@ Ltac ifs H := repeat match type of H with
 
 Definition hwf (h : hist) : bool :=
   implb (h_clr h) (h_app h && h_started h) && implb (h_ans h) (h_clr h) &&
-  implb (h_app h) (negb (h_hdl h)) && implb (h_pend h) (h_started h && negb (h_clr h)).
+  implb (h_app h) (negb (h_hdl h)) && implb (h_pend h) (h_started h && negb (h_clr h)) &&
+  implb (h_out h) (h_done h) &&
+  implb (h_done h && negb (h_out h))
+        (h_started h && negb (h_pend h) && negb (h_hdl h) && (h_clr h || negb (h_app h)) && implb (h_clr h) (negb (h_ans h))).
 
 Lemma hwf0 : hwf hist0 = true.
 Proof. reflexivity. Qed.
@@ -100,7 +103,8 @@ Proof.
   open_step Hst Hg.
   - destruct (chk_poll _ _ _ _ _ _) eqn:Hc; [|discriminate]. inversion Hst; subst; clear Hst.
     apply chk_poll_shape in Hc. unfold hwf in *. cbn in Hw.
-    inversion Hc; subst; cbn in *; bsolve.
+    inversion Hc; subst; cbn in *; bsolve;
+      exfalso; match goal with H : true = true -> _ |- _ => specialize (H eq_refl); intuition discriminate end.
   - rewrite Hg in Hst. ifs Hst; inversion Hst; subst; unfold hwf in *; cbn in *; bsolve.
   - ifs Hst; inversion Hst; subst; unfold hwf in *; cbn in *; bsolve.
   - inversion Hst; subst; unfold hwf in *; cbn in *; bsolve.
